@@ -832,6 +832,11 @@ func (c *Conn) advanceFrame() (int, error) {
 		if err != nil {
 			return noFrame, err
 		}
+		// RFC 6455 section 5.2: the most significant bit of the 64 bit length MUST be 0,
+		// and it would be a negative length here.
+		if p[0]&0x80 != 0 {
+			return noFrame, c.handleProtocolError("frame length with the most significant bit set")
+		}
 		c.readRemaining = int64(binary.BigEndian.Uint64(p))
 	}
 
